@@ -30,6 +30,8 @@ pub struct Args {
     /// worker role: "" = ordinary worker, "clean" = never runs gram code itself (every launch in
     /// a forked child), serves the process-isolated groups of an ordinary worker
     pub role: String,
+    /// fallback: mask thread ids in runtime banners (the gettid seam is dead)
+    pub mask_tid: bool,
 }
 
 impl Args {
@@ -59,6 +61,7 @@ impl Args {
             steps: 100_000,
             selftest_seeds: 0,
             role: String::new(),
+            mask_tid: false,
         };
         let mut i = 2;
         while i < argv.len() {
@@ -89,6 +92,7 @@ impl Args {
                 "--steps" => a.steps = num()?,
                 "--selftest-seeds" => a.selftest_seeds = num()?,
                 "--role" => a.role = val.clone(),
+                "--mask-tid" => a.mask_tid = val == "1",
                 _ => return Err(format!("unknown argument {key}")),
             }
             i += 2;
@@ -137,6 +141,9 @@ impl Args {
         push("--steps", self.steps.to_string());
         if !self.role.is_empty() {
             push("--role", self.role.clone());
+        }
+        if self.mask_tid {
+            push("--mask-tid", "1".to_owned());
         }
         v
     }
